@@ -189,6 +189,12 @@ Definition normalise (c : cfg) (ls : list maddr) (peer : N) (a : maddr) : option
        | _ => Some (a ++ [P2p peer])
        end.
 
+(* protocol/transport_service.rs TransportService::add_known_address: /p2p/<peer> is appended to
+   every address that does not end in a peer id; the resulting set goes to the handle's
+   add_known_address *)
+Definition ts_prepare (peer : N) (l : list maddr) : list maddr :=
+  map (fun a => match last a (Other 0) with P2p _ => a | _ => a ++ [P2p peer] end) l.
+
 (* HashSet<Multiaddr>: the distinct accepted addresses (in no particular order) *)
 Fixpoint dedup (l : list maddr) : list maddr :=
   match l with
@@ -566,12 +572,13 @@ Inductive op :=
 | OProbe (a : maddr)                                             (* stateless: filters and parsers *)
 | OListen (a : maddr)                                            (* register_listen_address *)
 | OHold (n : nat)         (* bring the number of established outbound connections (to other peers) to n *)
-| ODial (peer : N) (outcome : nat) (errs : list dial_error) (tcp ws : list maddr)
-      (* dial(peer) end to end; tcp / ws = the address lists the implementation handed to the
-         open() of the TCP / WebSocket transport; outcome 0: every attempt fails, j+1: the attempt
-         on address j of tcp ++ ws succeeds after the ones before it on the same transport failed,
-         the connection is established and closed again. Attempt i of tcp ++ ws, when it fails,
-         fails with error kind errs[i mod |errs|] (Timeout when errs is empty) *)
+| ODial (peer : N) (outcome : nat) (errs : list dial_error) (tcp ws qu : list maddr)
+      (* dial(peer) end to end; tcp / ws / qu = the address lists the implementation handed to the
+         open() of the TCP / WebSocket / QUIC transport; outcome 0: every attempt fails, j+1: the
+         attempt on address j of tcp ++ ws ++ qu succeeds after the ones before it on the same
+         transport failed, the connection is established and closed again. Attempt i of
+         tcp ++ ws ++ qu, when it fails, fails with error kind errs[i mod |errs|] (Timeout when
+         errs is empty) *)
 | OInsert (peer : N) (a : maddr) (sc : Z) (victim : option maddr)
       (* AddressStore::insert(AddressRecord::new(peer, a, sc)) with an arbitrary i32 score *)
 | ODialAddr (a : maddr) (res : option dial_error) (victims : list maddr)
@@ -579,7 +586,10 @@ Inductive op :=
          the DialFailure event with the given error kind, or (None) ConnectionEstablished, accept
          and close *)
 | OPublicAdd (a : maddr)                                         (* PublicAddresses::add_address *)
-| OPublicRemove (a : maddr).                                     (* PublicAddresses::remove_address *)
+| OPublicRemove (a : maddr)                                      (* PublicAddresses::remove_address *)
+| ODialAddrRefused (a : maddr) (victims : list maddr).
+      (* dial_address(a) where the transport's dial() returns an error: the dial is not started, the
+         record stored beforehand "for possible future dials" stays as it is *)
 
 Inductive dial_result :=
 | DLimit                 (* no free outbound capacity *)
@@ -589,7 +599,7 @@ Inductive dial_result :=
                             that does not name the peer (possible only through ill-formed dial
                             results): the call is skipped *)
 | DBadChoice             (* the supplied open() lists are not a valid selection *)
-| DTried (tcp ws : store).
+| DTried (tcp ws qu : store).
 
 (* what dial_address makes of an address *)
 Inductive dial_addr_verdict :=
@@ -689,22 +699,29 @@ Definition succeed_at (k : scorecfg) (s : store) (peer : N) (l : list (maddr * d
   end.
 
 Definition dial_outcome (k : scorecfg) (s : store) (peer : N) (outcome : nat) (errs : list dial_error)
-           (tcp ws : list maddr) : store :=
+           (tcp ws qu : list maddr) : store :=
   let t := tag_errs errs 0 tcp in
   let w := tag_errs errs (length tcp) ws in
+  let q := tag_errs errs (length tcp + length ws) qu in
   match outcome with
-  | O => fail_each k (fail_each k s t) w
+  | O => fail_each k (fail_each k (fail_each k s t) w) q
   | S j0 =>
-      let n := (length tcp + length ws)%nat in
+      let n := (length tcp + length ws + length qu)%nat in
       let j := (j0 mod n)%nat in
       if (j <? length tcp)%nat then succeed_at k s peer t j
-      else succeed_at k s peer w (j - length tcp)
+      else if (j <? length tcp + length ws)%nat then succeed_at k s peer w (j - length tcp)
+      else succeed_at k s peer q (j - length tcp - length ws)
   end.
 
 (* ---- dial_address ---- *)
 
 Definition is_host (h : comp) : bool :=
   match h with Ip4 _ _ | Ip6 _ _ | Dns _ | Dns4 _ | Dns6 _ => true | _ => false end.
+
+(* dial_address's TriedToDialSelf test: the address itself or the address without its /p2p suffix
+   is in the listen set (which holds every listen address with and without /p2p/<local>) *)
+Definition own_listen (c : cfg) (ls : list maddr) (a : maddr) : bool :=
+  existsb (maddr_eqb a) (listen_set c ls) || existsb (maddr_eqb (strip_p2p a)) (listen_set c ls).
 
 (* the checks of TransportManager::dial_address, in the order of the code *)
 Definition dial_addr_check (c : cfg) (st : state) (a : maddr) : dial_addr_verdict :=
@@ -713,7 +730,8 @@ Definition dial_addr_check (c : cfg) (st : state) (a : maddr) : dial_addr_verdic
   | Some _ =>
       match last a (Other 0) with
       | P2p q =>
-          if existsb (maddr_eqb a) (listen_set c (lst st)) then DASelf
+          (* the node's own listen address, literally or under another peer id *)
+          if own_listen c (lst st) a then DASelf
           else
             match a with
             | h :: rest =>
@@ -792,11 +810,11 @@ Definition step (c : cfg) (k : scorecfg) (st : state) (o : op) : state * out :=
   | OHold n =>
       (* connections are established through an installed transport and accepted only while
          below the outbound limit *)
-      if en_tcp c || (feat_ws c && en_ws c) then
+      if en_tcp c || (feat_ws c && en_ws c) || (feat_quic c && en_quic c) then
         let n' := match max_out c with Some m => Nat.min n m | None => n end in
         (mkState b (lst st) n' (pubs st), RHold n')
       else (st, RHold (held st))
-  | ODial peer outcome errs tcp ws =>
+  | ODial peer outcome errs tcp ws qu =>
       let s := get_or_empty peer b in
       (* the harness does not call dial(peer) for a store it could wedge on *)
       if existsb (fun x => negb (enabled c (route c (fst x)) && names peer (fst x))) s
@@ -810,12 +828,14 @@ Definition step (c : cfg) (k : scorecfg) (st : state) (o : op) : state * out :=
                | _ =>
                    let t := with_scores s tcp in
                    let w := with_scores s ws in
-                   if forallb (fun a => mem a s) (tcp ++ ws) &&
+                   let q := with_scores s qu in
+                   if forallb (fun a => mem a s) (tcp ++ ws ++ qu) &&
                       forallb (fun a => match route c a with TTcp => true | _ => false end) tcp &&
                       forallb (fun a => match route c a with TWs => true | _ => false end) ws &&
-                      addresses_ok limit s (merge_desc t w)
-                   then (set_bk st (put peer (dial_outcome k s peer outcome errs tcp ws) b),
-                         RDial (DTried t w))
+                      forallb (fun a => match route c a with TQuic => true | _ => false end) qu &&
+                      addresses_ok limit s (merge_desc (merge_desc t w) q)
+                   then (set_bk st (put peer (dial_outcome k s peer outcome errs tcp ws qu) b),
+                         RDial (DTried t w q))
                    else (st, RDial DBadChoice)
                end
       end
@@ -829,6 +849,13 @@ Definition step (c : cfg) (k : scorecfg) (st : state) (o : op) : state * out :=
           let sc := match res with Some e => error_score k e | None => sc_established k end in
           let '(s2, r2) := insert k s1 a sc (hd_error victims1) in
           (set_bk st (put q s2 b), RDialAddr (DAOk t q) (is_bad r1 || is_bad r2))
+      | v => (st, RDialAddr v false)
+      end
+  | ODialAddrRefused a victims =>
+      match dial_addr_check c st a with
+      | DAOk t q =>
+          let '(s1, r1) := insert k (get_or_empty q b) a 0 (hd_error victims) in
+          (set_bk st (put q s1 b), RDialAddr (DAOk t q) (is_bad r1))
       | v => (st, RDialAddr v false)
       end
   | OPublicAdd a =>
